@@ -356,7 +356,7 @@ fn main() {
             "attributed_by_cause_rule": [],
             "generated_again_after_fix": ["F-C04-5 (0e9e81b): break/continue out of try bodies (also with a break value), nested loops/tries", "F-C04-2 (08c98b7..c937342): call results assigned directly to existing locals", "F-C04-3 (05bcc99): wrong-arg-count calls inside try bodies", "F-C04-6 (08c98b7): no attribution rule; generator errors must arrive with their thrown value"],
             "k2_family": "shapes of F-C04-1 ARE generated in the K2 family: the mechanism model must predict the real runtime there",
-            "other_limits": ["loops never in value position", "strings are atoms (no string operations)", "objects with operators are created in main only", "keep/sort callbacks return Bool/Number by construction", "stack traces appended to messages are stripped before comparison"]
+            "other_limits": ["expression statements are rendered `z_ = <expr>` (an unused arithmetic/unary expression is never evaluated by the compiler: F-C01-3, cross-reference)", "no map literals with computed entries on the right-hand side of assignments (partial container left in the target: F-C01-1 family, cross-reference)", "loops never in value position", "strings are atoms (no string operations)", "objects with operators are created in main only", "keep/sort callbacks return Bool/Number by construction", "stack traces appended to messages are stripped before comparison"]
         }),
     );
     let open: Vec<String> =
@@ -464,6 +464,9 @@ fn main() {
     }
     // ---- 1b. (E) error propagation through every iterator adaptor / consumer position
     run_sweep(&mut cx, args.seed, args.thorough());
+
+    // ---- 1d. (R) receiver state after a failed mutating library call
+    run_recv_family(&mut cx, args.seed, args.thorough());
 
     // ---- 1c. (I) state after a failed import
     run_import_family(&mut cx);
@@ -1602,6 +1605,314 @@ fn run_import_family(cx: &mut Ctx) {
     }
     cx.rep.extra.insert("import_family".into(), json!({"cases": n, "failures": fails, "bad_module_kinds": BAD_MODS.iter().map(|b| b.name).collect::<Vec<_>>()}));
     let _ = std::fs::remove_dir_all(&dir);
+}
+
+// ------------------------------------------------------------------------------------ (R) receiver state after a failed mutating call
+//
+// Clause: "after a caught error execution continues with every variable and container as it was at
+// the throw point" — for a core-library function that mutates its receiver and fails part-way
+// through (a callback or an overloaded comparison raises at its k-th invocation), the receiver — and
+// every alias of it — must afterwards hold what the completed effects explain: nothing lost, nothing
+// invented; for element-wise in-place operations exactly the documented partial state. The finally
+// block runs. Model-free: the expected state follows from the row's template; the table is checked
+// against the `add_fn` names of core_lib/list.rs and core_lib/map.rs.
+
+#[derive(Clone, Copy, Debug, PartialEq)]
+enum RecvExpect {
+    /// the same elements / entries in some order (reordering operations)
+    Permutation,
+    /// exactly the state computed by `recv_expected` (element-wise operations)
+    Exact,
+    /// unchanged, or the documented intermediate state computed by `recv_expected`
+    UnchangedOrExact,
+}
+
+struct RecvRow {
+    f: &'static str, // "list.sort", "map.update", …
+    name: &'static str,
+    /// receiver construction; `{MK}` = constructor of comparison objects
+    recv: &'static str,
+    /// the elements/entries of the receiver as they are displayed, in order
+    items: &'static [&'static str],
+    op: &'static str,
+    role: FRole,
+    expect: RecvExpect,
+    /// the objects' `@<` / `@>` / `@==` go through the fault function
+    objects: bool,
+}
+
+const LIST5: &str = "[3, 1, 4, 2, 5]";
+const LIST5_ITEMS: &[&str] = &["3", "1", "4", "2", "5"];
+const MAP4: &str = "{c: 3, a: 1, d: 4, b: 2}";
+const MAP4_ITEMS: &[&str] = &["c: 3", "a: 1", "d: 4", "b: 2"];
+const OBJ4: &str = "[mkc_(3), mkc_(1), mkc_(4), mkc_(2)]";
+const OBJ4_ITEMS: &[&str] = &["k3", "k1", "k4", "k2"];
+
+const RECV_ROWS: &[RecvRow] = &[
+    RecvRow { f: "list.sort", name: "list.sort(key fn)", recv: LIST5, items: LIST5_ITEMS, op: "r_.sort(ft_)", role: FRole::Key, expect: RecvExpect::Permutation, objects: false },
+    RecvRow { f: "list.sort", name: "list.sort() with a raising @<", recv: OBJ4, items: OBJ4_ITEMS, op: "r_.sort()", role: FRole::Id, expect: RecvExpect::Permutation, objects: true },
+    RecvRow { f: "list.sort", name: "list.sort(key fn returning objects with a raising @<)", recv: LIST5, items: LIST5_ITEMS, op: "r_.sort(|x| mkc_(x))", role: FRole::Id, expect: RecvExpect::Permutation, objects: true },
+    RecvRow { f: "map.sort", name: "map.sort(key fn)", recv: MAP4, items: MAP4_ITEMS, op: "r_.sort(|k, v| ft_(v))", role: FRole::Key, expect: RecvExpect::Permutation, objects: false },
+    RecvRow { f: "map.sort", name: "map.sort(key fn returning objects with a raising @<)", recv: MAP4, items: MAP4_ITEMS, op: "r_.sort(|k, v| mkc_(v))", role: FRole::Id, expect: RecvExpect::Permutation, objects: true },
+    RecvRow { f: "list.transform", name: "list.transform(fn)", recv: LIST5, items: LIST5_ITEMS, op: "r_.transform(|x| ft_(x) * 10)", role: FRole::Id, expect: RecvExpect::Exact, objects: false },
+    RecvRow { f: "list.retain", name: "list.retain(predicate)", recv: LIST5, items: LIST5_ITEMS, op: "r_.retain(|x| ft_(x) > 2)", role: FRole::Id, expect: RecvExpect::Exact, objects: false },
+    RecvRow { f: "list.retain", name: "list.retain(value) with a raising @==", recv: OBJ4, items: OBJ4_ITEMS, op: "r_.retain(mkc_(4))", role: FRole::Id, expect: RecvExpect::Exact, objects: true },
+    RecvRow { f: "list.resize_with", name: "list.resize_with(n, fn)", recv: LIST5, items: LIST5_ITEMS, op: "r_.resize_with(9, ft_)", role: FRole::Gen, expect: RecvExpect::Exact, objects: false },
+    RecvRow { f: "list.extend", name: "list.extend(raising iterator)", recv: LIST5, items: LIST5_ITEMS, op: "r_.extend((10, 20, 30, 40).each(ft_))", role: FRole::Id, expect: RecvExpect::UnchangedOrExact, objects: false },
+    RecvRow { f: "map.extend", name: "map.extend(raising iterator)", recv: MAP4, items: MAP4_ITEMS, op: "r_.extend((('w', 10), ('x', 20), ('y', 30), ('z', 40)).each(ft_))", role: FRole::Id, expect: RecvExpect::UnchangedOrExact, objects: false },
+    RecvRow { f: "map.update", name: "map.update(key, fn)", recv: MAP4, items: MAP4_ITEMS, op: "r_.update('a', |v| ft_(v) + 100)", role: FRole::Id, expect: RecvExpect::UnchangedOrExact, objects: false },
+    RecvRow { f: "map.update", name: "map.update(new key, default, fn)", recv: MAP4, items: MAP4_ITEMS, op: "r_.update('q', 7, |v| ft_(v) + 100)", role: FRole::Id, expect: RecvExpect::UnchangedOrExact, objects: false },
+];
+
+/// every `add_fn` of list.rs / map.rs: rows above, or why none is needed
+const RECV_NOT_APPLICABLE: &[(&str, &str)] = &[
+    ("list.clear", "no callback, cannot fail part-way"),
+    ("list.contains", "does not mutate"),
+    ("list.fill", "no callback"),
+    ("list.first", "does not mutate"),
+    ("list.get", "does not mutate"),
+    ("list.insert", "single step"),
+    ("list.is_empty", "does not mutate"),
+    ("list.last", "does not mutate"),
+    ("list.pop", "single step"),
+    ("list.push", "single step"),
+    ("list.remove", "single step"),
+    ("list.resize", "no callback"),
+    ("list.reverse", "no callback"),
+    ("list.swap", "no callback"),
+    ("list.to_tuple", "does not mutate"),
+    ("map.clear", "no callback"),
+    ("map.contains_key", "does not mutate"),
+    ("map.get", "does not mutate"),
+    ("map.get_index", "does not mutate"),
+    ("map.get_meta", "does not mutate"),
+    ("map.insert", "single step"),
+    ("map.is_empty", "does not mutate"),
+    ("map.keys", "does not mutate"),
+    ("map.remove", "single step"),
+    ("map.values", "does not mutate"),
+    ("map.with_meta", "builds a new map"),
+];
+
+fn check_recv_table(cx: &mut Ctx) {
+    let base = format!("{}/crates/runtime/src/core_lib", repo_root());
+    let mut problems = vec![];
+    let mut seen = std::collections::BTreeSet::new();
+    for (file, module) in [("list.rs", "list"), ("map.rs", "map")] {
+        match scan_names(&format!("{}/{}", base, file), "result.add_fn(\"", '"') {
+            Some(v) if v.len() >= 10 => {
+                for n in v {
+                    seen.insert(format!("{}.{}", module, n));
+                }
+            }
+            _ => problems.push(format!("{} not found or not in the expected shape", file)),
+        }
+    }
+    let table: std::collections::BTreeSet<String> =
+        RECV_ROWS.iter().map(|r| r.f.to_string()).chain(RECV_NOT_APPLICABLE.iter().map(|x| x.0.to_string())).collect();
+    for f in &seen {
+        if !table.contains(f) {
+            problems.push(format!("{} is defined in the source but has no row (or n/a entry) in the receiver-state table", f));
+        }
+    }
+    for f in &table {
+        if !seen.contains(f) {
+            problems.push(format!("the receiver-state table lists {} which the source no longer defines", f));
+        }
+    }
+    if !problems.is_empty() {
+        cx.fails += 1;
+        cx.rep.violation(
+            "K",
+            "K:C04:receiver-state-table",
+            json!({"problems": problems,
+                   "note": "the table of receiver-mutating list/map functions no longer matches crates/runtime/src/core_lib/{list,map}.rs: a new function has no coverage of its state after a failed callback"}),
+        );
+    }
+}
+
+/// the documented state of the receiver when the fault function raises at its `k`-th call (0-based)
+fn recv_expected(row: &RecvRow, k: usize) -> Vec<String> {
+    let items: Vec<String> = row.items.iter().map(|s| s.to_string()).collect();
+    match row.name {
+        "list.transform(fn)" => {
+            items.iter().enumerate().map(|(i, x)| if i < k { format!("{}", x.parse::<i64>().unwrap() * 10) } else { x.clone() }).collect()
+        }
+        "list.retain(predicate)" => {
+            let mut v: Vec<String> = items[..k.min(items.len())].iter().filter(|x| x.parse::<i64>().unwrap() > 2).cloned().collect();
+            v.extend(items[k.min(items.len())..].iter().cloned());
+            v
+        }
+        "list.retain(value) with a raising @==" => {
+            // one @== call per element: the elements decided so far (kept iff equal to k4), then the rest
+            let mut v: Vec<String> = items[..k.min(items.len())].iter().filter(|x| *x == "k4").cloned().collect();
+            v.extend(items[k.min(items.len())..].iter().cloned());
+            v
+        }
+        "list.resize_with(n, fn)" => {
+            let mut v = items.clone();
+            for _ in 0..k {
+                v.push("1".into());
+            }
+            v
+        }
+        "list.extend(raising iterator)" => {
+            let mut v = items.clone();
+            v.extend(["10", "20", "30", "40"][..k.min(4)].iter().map(|s| s.to_string()));
+            v
+        }
+        "map.extend(raising iterator)" => {
+            let mut v = items.clone();
+            v.extend(["w: 10", "x: 20", "y: 30", "z: 40"][..k.min(4)].iter().map(|s| s.to_string()));
+            v
+        }
+        "map.update(new key, default, fn)" => {
+            let mut v = items.clone();
+            v.push("q: 7".into());
+            v
+        }
+        _ => items,
+    }
+}
+
+fn split_display(s: &str) -> Option<Vec<String>> {
+    let t = s.trim();
+    let inner = t.strip_prefix('[').and_then(|x| x.strip_suffix(']')).or_else(|| t.strip_prefix('{').and_then(|x| x.strip_suffix('}')))?;
+    if inner.is_empty() {
+        return Some(vec![]);
+    }
+    Some(inner.split(", ").map(|x| x.to_string()).collect())
+}
+
+fn run_recv_family(cx: &mut Ctx, seed: u64, thorough: bool) {
+    check_recv_table(cx);
+    let mut n = 0u64;
+    let mut fails = 0u64;
+    let mut fired_rows: std::collections::BTreeMap<&'static str, u64> = Default::default();
+    let mut rot = (seed as usize) % 5;
+    let reps = if thorough { 6 } else { 1 };
+    for row in RECV_ROWS {
+        for k in 0..4usize {
+            for in_function in [false, true] {
+                for _ in 0..reps {
+                    rot += 1;
+                    let fault = FAULTS[rot % FAULTS.len()];
+                    // the fault function (roles as in the iterator sweep)
+                    let (params, ret) = match row.role {
+                        FRole::Gen => ("||", "1"),
+                        _ => ("|x|", "x"),
+                    };
+                    let mut s = String::from("nul_ = null\nk1_ = |a| a\nmkE_ = ||\n  @type: 'K0'\n  @display: || 'k0'\nhits_ = []\n");
+                    s.push_str(&format!(
+                        "ft_ = {}\n  hits_.push 0\n  if (size hits_) == {}\n    print '#HIT'\n    {}\n  {}\n",
+                        params,
+                        k + 1,
+                        fault.stmt(),
+                        ret
+                    ));
+                    if row.objects {
+                        s.push_str("mkc_ = |n|\n  n: n\n  @display: || 'k{self.n}'\n  @<: |o| ft_(self.n < o.n)\n  @>: |o| ft_(self.n > o.n)\n  @==: |o| ft_(self.n == o.n)\n");
+                    }
+                    s.push_str(&format!("r_ = {}\nal_ = r_\nprint '#S'\n", row.recv));
+                    let body = format!("z_ = {}\nprint '#DONE'\n", row.op);
+                    if in_function {
+                        // the receiver reaches the mutating call through a parameter: a third alias
+                        s.push_str(&format!("run_ = |r_|\n  z_ = {}\n  print '#DONE'\n  0\ntry\n  z2_ = run_(r_)\ncatch e_\n  print '#C {{type e_}} {{e_}}'\nfinally\n  print '#F'\n", row.op));
+                    } else {
+                        s.push_str("try\n");
+                        for l in body.lines() {
+                            s.push_str(&format!("  {}\n", l));
+                        }
+                        s.push_str("catch e_\n  print '#C {type e_} {e_}'\nfinally\n  print '#F'\n");
+                    }
+                    s.push_str("print '#R {r_}'\nprint '#A {al_}'\nprint '#N {size r_}'\n");
+                    n += 1;
+                    let (so, r) = run_real(&s);
+                    let key = format!("recv row={} k={} fault={:?} in_function={}", row.name, k, fault, in_function);
+                    let lines: Vec<&str> = so.split('\n').filter(|l| !l.is_empty()).collect();
+                    let fired = lines.iter().any(|l| *l == "#HIT");
+                    cx.rep.case(&key, fired);
+                    if !fired {
+                        cx.rep.bump("recv_family=fault_point_not_reached");
+                        // the operation completed: nothing to check here (the generated families cover normal runs)
+                        continue;
+                    }
+                    cx.rep.bump("recv_family=fired");
+                    *fired_rows.entry(row.name).or_insert(0) += 1;
+                    let why: Option<String> = (|| {
+                        if let Err(p) = &r {
+                            return Some(format!("panic: {}", p));
+                        }
+                        if let Some(j) = lines.iter().find(|l| !l.starts_with('#')) {
+                            return Some(format!("output that is not a marker line: {:?}", j));
+                        }
+                        let pos = lines.iter().position(|l| *l == "#HIT").unwrap();
+                        let after = &lines[pos + 1..];
+                        let exp_c = format!("#C {}", fault.expected());
+                        if after.len() != 5 || after[0] != exp_c || after[1] != "#F" {
+                            return Some(format!("expected [{:?}, \"#F\", #R, #A, #N] after the fault point, got {:?}", exp_c, after));
+                        }
+                        let rr = after[2].strip_prefix("#R ")?.to_string();
+                        let aa = after[3].strip_prefix("#A ").unwrap_or("?").to_string();
+                        if rr != aa {
+                            return Some(format!("the receiver and its alias differ: {:?} vs {:?}", rr, aa));
+                        }
+                        let got = match split_display(&rr) {
+                            Some(v) => v,
+                            None => return Some(format!("receiver is displayed as {:?}", rr)),
+                        };
+                        if after[4] != format!("#N {}", got.len()) {
+                            return Some(format!("size {:?} does not match the displayed receiver {:?}", after[4], rr));
+                        }
+                        let orig: Vec<String> = row.items.iter().map(|x| x.to_string()).collect();
+                        let exact = recv_expected(row, k);
+                        let same_multiset = |a: &Vec<String>, b: &Vec<String>| {
+                            let mut x = a.clone();
+                            let mut y = b.clone();
+                            x.sort();
+                            y.sort();
+                            x == y
+                        };
+                        let ok = match row.expect {
+                            RecvExpect::Permutation => same_multiset(&got, &orig),
+                            RecvExpect::Exact => got == exact,
+                            RecvExpect::UnchangedOrExact => got == orig || got == exact,
+                        };
+                        if !ok {
+                            return Some(format!(
+                                "after the caught error the receiver holds {:?}; it held {:?} before the call{}",
+                                got,
+                                orig,
+                                match row.expect {
+                                    RecvExpect::Permutation => " (entries were lost or invented by a reordering operation)".to_string(),
+                                    _ => format!(", the completed effects explain {:?}", exact),
+                                }
+                            ));
+                        }
+                        None
+                    })();
+                    if let Some(why) = why {
+                        fails += 1;
+                        cx.fails += 1;
+                        if fails <= 5 {
+                            cx.rep.violation(
+                                "D",
+                                "C04:receiver-state-after-caught-error",
+                                json!({"case": key, "source": s, "impl": format!("{} || {:?}", lines.join(" | "), r), "why": why,
+                                       "note": "a core-library function that mutates its receiver failed part-way through a callback/comparison; after the catch the receiver (or an alias) does not hold what the completed effects explain, or the handler / finally did not run"}),
+                            );
+                        }
+                    }
+                }
+            }
+        }
+    }
+    let silent: Vec<&str> = RECV_ROWS.iter().map(|r| r.name).filter(|nm| fired_rows.get(nm).copied().unwrap_or(0) == 0).collect();
+    cx.rep.extra.insert("receiver_state_family".into(), json!({"cases": n, "failures": fails, "fired_per_row": fired_rows, "rows_never_fired": silent}));
+    if !silent.is_empty() {
+        cx.fails += 1;
+        cx.rep.violation("K", "K:C04:receiver-state-coverage", json!({"rows_never_fired": silent, "note": "no case reached the fault point of these rows (templates need adjusting)"}));
+    }
 }
 
 // ------------------------------------------------------------------------------------ AST
